@@ -736,6 +736,12 @@ func Guard(fn *ssa.Function, from ssa.Instruction, target ssa.Instruction, alts 
 		cut.Add(es)
 		ifs = append(ifs, is...)
 	}
+	if len(alts) > 1 {
+		// the disjunction as one fact: needed where a named boolean (`need := a || b`) is tested later
+		es, is := IfEdges(fn, anyMatch(alts))
+		cut.Add(es)
+		ifs = append(ifs, is...)
+	}
 	if debugGuard {
 		fmt.Printf("GUARD %s target=%s cutEdges=%d\n", fn.Name(), target, len(cut))
 		for e := range cut {
@@ -1078,4 +1084,16 @@ func IntC(desc string, x VP, op token.Token, k int64, nonNeg bool) CP {
 		}
 		return false, false
 	}}
+}
+
+// anyMatch: the condition matcher of a disjunction of alternatives (first alternative that accepts the condition).
+func anyMatch(alts []CP) func(c ssa.Value) (bool, bool) {
+	return func(c ssa.Value) (bool, bool) {
+		for _, a := range alts {
+			if ok, side := a.Match(c); ok {
+				return true, side
+			}
+		}
+		return false, false
+	}
 }
